@@ -26,6 +26,7 @@ WORLDS = {
     "C12": "worlds.c12",
     "C13": "worlds.c13",
     "C02": "worlds.c02",
+    "C03": "worlds.c03",
 }
 
 # per-property tier sizes: (runs, wall budget seconds, per-run timeout)
